@@ -15,7 +15,7 @@ ASSUMPTIONS = ['dense Galerkin reference as in C14 (pgv.refspline)', 'numpy.fft 
 
 def cases(tier, seed):
     out = []
-    grids = [(1, 1), (2, 1), (1, 2), (2, 2), (3, 2)] if tier == 'quick' else [(1, 1), (2, 1), (1, 2), (2, 2), (3, 2), (2, 3), (4, 1), (1, 4)]
+    grids = [(1, 1), (2, 1), (1, 2), (2, 2), (3, 2)] if tier == 'quick' else [(1, 1), (2, 1), (1, 2), (2, 2), (3, 2), (2, 3), (4, 1), (1, 3), (5, 1)]
     for nq, (adiab, chi), path in itertools.product((4, 5, 8, 9), ((True, 0), (True, 1), (False, None)), ('cu', 'nu')):
         for g in grids:
             if tier == 'quick' and g not in ((1, 1), (2, 2)) and (nq, path) not in ((5, 'cu'), (8, 'nu')):
